@@ -99,6 +99,22 @@ case $ID in
   C18-4)
     git apply $S/demo_hooks.diff; cp $S/demo.rs src/c18_demo.rs; T cargo test --offline --lib c18_change2; without=$?
     clean; git apply $S/patch.diff && git apply $S/demo_hooks.diff; cp $S/demo.rs src/c18_demo.rs; T cargo test --offline --lib c18_change2; with=$? ;;
+  C13-3|C13-4)
+    mkdir -p SEEDED/change1 SEEDED/change2; cp /verif/seeded/C13-3/demo.rs SEEDED/change1/; cp /verif/seeded/C13-4/demo.rs SEEDED/change2/
+    git apply $S/demo_hooks.diff; T cargo test --offline --lib seeded_demo; without=$?
+    git apply $S/patch.diff; T cargo test --offline --lib seeded_demo; with=$? ;;
+  C17-3|C17-4)
+    N17=1; [ $ID = C17-4 ] && N17=2
+    python3 $S/demo_apply.py; T cargo test --offline --lib seed_c17_$N17 -- --test-threads=1; without=$?
+    clean; git apply $S/patch.diff && python3 $S/demo_apply.py; T cargo test --offline --lib seed_c17_$N17 -- --test-threads=1; with=$? ;;
+  C20-3)
+    cp $S/demo.rs tests/seed_demo.rs; T cargo test --offline --features serde --test seed_demo; without=$?
+    git apply $S/patch.diff; T cargo test --offline --features serde --test seed_demo; with=$? ;;
+  C20-4)
+    cp $S/demo.rs tests/seed_demo.rs
+    MIRIFLAGS="-Zmiri-ignore-leaks -Zmiri-many-seeds=0..6" T cargo +nightly miri test --offline --features serde,internal-test-strategies --test seed_demo; without=$?
+    git apply $S/patch.diff
+    MIRIFLAGS="-Zmiri-ignore-leaks -Zmiri-many-seeds=0..6" T cargo +nightly miri test --offline --features serde,internal-test-strategies --test seed_demo; with=$? ;;
   *)
     # generic: integration test, no hooks
     cp $S/demo.rs tests/seed_demo.rs; T cargo test --offline --test seed_demo; without=$?
